@@ -285,6 +285,20 @@ def gen_program(tier):
                     yield {'fn': 'prog-mid', 'A': a, 'B': b, 'p': p, 'n': n}
             yield {'fn': 'prog-lset', 'A': a, 'B': b}
             yield {'fn': 'prog-rset', 'A': a, 'B': b}
+        # source is the code-resident target itself
+        for p in (1, 2, 3, 6):
+            for n in (None, 1, 2, 255):
+                yield {'fn': 'prog-mid', 'A': a, 'B': a, 'p': p, 'n': n, 'src': 'self'}
+        # source in string space, which is so full that copying the literal out of the program
+        # text collects garbage and moves the source
+        for b in values[1:]:
+            for p in (1, 2, len(a)):
+                for n in (None, 1):
+                    for free in (0, len(a) - 1, len(a), len(a) + 1):
+                        for st in ('mid', 'lset', 'rset'):
+                            if st != 'mid' and (p, n) != (1, None):
+                                continue
+                            yield {'fn': 'prog-' + st, 'A': a, 'B': b, 'p': p, 'n': n, 'src': 'heap', 'free': free}
 
 
 GENERATORS = {
@@ -654,20 +668,34 @@ def _exec_program(part, case):
     """Target is a string literal inside the program text: the statement must work on a copy."""
     fn = case['fn']
     a, b = case['A'], case['B']
+    src = case.get('src', 'lit')
+    rhs = {'lit': '"%s"' % b, 'self': 'A$', 'heap': 'B$'}[src]
+    also = None
     if fn == 'prog-mid':
         p, n = case['p'], case['n']
-        st = 'MID$(A$,%d%s)="%s"' % (p, '' if n is None else ',%d' % n, b)
+        st = 'MID$(A$,%d%s)=%s' % (p, '' if n is None else ',%d' % n, rhs)
         errs, exp, optional = R.mid_statement(a.encode(), p, n, b.encode())
+        if src == 'self' and not errs:
+            # the target is copied out of the program text first; the source may be read from
+            # the program text (value semantics) or from the copy (sequential): both accepted
+            also = R.mid_statement_forward_copy(a.encode(), p, n)
     elif fn == 'prog-lset':
-        st = 'LSET A$="%s"' % b
+        st = 'LSET A$=%s' % rhs
         errs, exp = R.lset(a.encode(), b.encode())
     else:
-        st = 'RSET A$="%s"' % b
+        st = 'RSET A$=%s' % rhs
         errs, exp = R.rset(a.encode(), b.encode())
     line = '10 A$="%s":%s:PRINT "[";A$;"]";LEN(A$)' % (a, st)
-    s = H.new_session(horizon=200)
+    lines = [line]
+    if src == 'heap':
+        line = '70 A$="%s":%s:PRINT "[";A$;"]";LEN(A$):IF B$<>"%s" THEN PRINT "source changed"' % (a, st, b)
+        lines = ['10 DIM Z$(400):A$="":I=0', '20 G$=SPACE$(100)', '30 B$="%s"+""' % b, '40 G$=""',
+                 '50 WHILE FRE(0)>300:I=I+1:Z$(I)=SPACE$(250):WEND',
+                 '60 I=I+1:Z$(I)=SPACE$(FRE(0)\\2):I=I+1:Z$(I)=SPACE$(FRE(0)-%d)' % case['free'], line]
+    s = H.new_session(horizon=20000)
     try:
-        H.run(s, line.encode())
+        for l in lines:
+            H.run(s, l.encode())
         listing0 = H.run(s, b'LIST').out
         outs = []
         for _ in range(2):
@@ -680,7 +708,7 @@ def _exec_program(part, case):
         listing1 = H.run(s, b'LIST').out
     finally:
         s.close()
-    cls = fn[5:]
+    cls = fn[5:] + ('' if src == 'lit' else '-' + src)
     part.classes.add('prog:%s:%s' % (cls, 'err' if errs else 'ok'))
     part.outcome('err' if outs[0][0] else 'ok')
     if listing0 != listing1:
@@ -694,6 +722,8 @@ def _exec_program(part, case):
             part.violation('program/%s/error-missed' % cls, '%s: err %r out %r, reference error %s' % (line, err, out, sorted(errs)), case)
         return
     want = b'[' + exp + b']' + (' %d ' % len(a)).encode() + b'\r\n'
+    if also is not None and out == b'[' + also + b']' + (' %d ' % len(a)).encode() + b'\r\n':
+        want = out
     if err is not None or out != want:
         part.violation('program/%s/wrong-value' % cls, '%s: err %r out %r, reference %r' % (line, err, out, want), case)
 
